@@ -44,8 +44,11 @@ Combos(it, vars, parts, phs, k) ==      \* k = index of the next name in phs; re
                  [st |-> "ok", out |-> [r \in 1..Len(rest.out) |->
                      [parts |-> pre \o <<STAR>> \o rest.out[r].parts, phs |-> rest.out[r].phs]]]
              ELSE LET lk == VarLookup(vars, n) IN
-                  \* an empty table and a boolean entry (a number for Python) are not covered by the documentation
-                  IF lk.found /\ (lk.vals = <<>> \/ \E j \in 1..Len(lk.vals) : lk.vals[j].t = "b") THEN [st |-> "unspec", out |-> <<>>]
+                  \* a table without entries: the alternatives are OR-linked and there is none - nothing the item could be
+                  \* replaced by stands for that (least of all a test for null), the conversion fails
+                  IF lk.found /\ lk.vals = <<>> THEN [st |-> "fail", out |-> <<>>]
+                  \* a boolean entry (a number for Python) is not covered by the documentation
+                  ELSE IF lk.found /\ (\E j \in 1..Len(lk.vals) : lk.vals[j].t = "b") THEN [st |-> "unspec", out |-> <<>>]
                   ELSE IF ~lk.found \/ \E j \in 1..Len(lk.vals) : lk.vals[j].t \notin {"s", "n"} THEN [st |-> "fail", out |-> <<>>]
                   ELSE IF \E j \in 1..Len(lk.vals) : lk.vals[j].t = "n" /\ lk.vals[j].num[2] # 1 THEN [st |-> "unspec", out |-> <<>>]
                   ELSE [st |-> "ok", out |->
